@@ -6,6 +6,7 @@
 mod common;
 mod env;
 mod kit;
+mod l2;
 mod props;
 mod script;
 mod secrets;
